@@ -68,29 +68,45 @@ def compare(chk, beh, a, rec, sets, mk, ctx, frame, chain, check_cols=False):
     bad = None
     fed = beh['fed']
     starts = np.cumsum([0] + beh['ns'])
-    if len(rec.batches) != len(fed):
-        bad = f'number of batches handed to update ({len(rec.batches)}) equals the specification\'s ({len(fed)})'
+    # P: the batches handed to update tile every run's trace set in order (each trace exactly once); the batch BOUNDARIES are the
+    # mechanism's business (K): a different but valid tiling is reported as drift, not as a violation
     alltr, alld = [], []
-    if not bad:
-        for (ids, tr, d), (run, lo, hi) in zip(rec.batches, fed):
-            want_ids = np.arange(starts[run - 1] + lo - 1, starts[run - 1] + hi)
-            if ids is None or not np.array_equal(np.asarray(ids), want_ids):
-                bad = 'every trace is used exactly once, in order (batch ids equal the specification feed)'
-                ctx = dict(ctx, got_ids=np.asarray(ids).tolist(), want_ids=want_ids.tolist())
-                break
-            samples, v, _ = sets[run - 1]
-            xt, xd = pl.expected_arrays(a, samples, v, np.arange(lo - 1, hi), frame, chain, pp)
-            if tr.shape != xt.shape or not np.array_equal(tr, xt):
-                bad = 'update receives the frame of each trace passed through the preprocess chain in order'
-                break
-            if d.shape != xd.shape or not np.array_equal(d, xd):
-                bad = 'each trace is paired with its own metadata: data equals model(selection_function(metadata of the same traces))'
-                break
-            alltr.append(xt)
-            alld.append(xd)
+    seen = {r: 0 for r in range(1, len(beh['ns']) + 1)}
+    order = []
+    for (ids, tr, d) in rec.batches:
+        if ids is None or len(ids) == 0:
+            bad = 'no empty batch is handed to update'
+            break
+        ids = np.asarray(ids)
+        run = int(np.searchsorted(starts, ids[0], side='right'))
+        lo = int(ids[0] - starts[run - 1])
+        if run < 1 or run > len(beh['ns']) or lo != seen[run] or not np.array_equal(ids, np.arange(ids[0], ids[0] + len(ids))) or lo + len(ids) > beh['ns'][run - 1] \
+                or (order and run < order[-1]):
+            bad = 'every trace is used exactly once, in order'
+            ctx = dict(ctx, got_ids=ids.tolist(), expected_next=int(starts[run - 1] + seen.get(run, 0)) if 1 <= run <= len(beh['ns']) else None)
+            break
+        seen[run] += len(ids)
+        order.append(run)
+        samples, v, _ = sets[run - 1]
+        xt, xd = pl.expected_arrays(a, samples, v, np.arange(lo, lo + len(ids)), frame, chain, pp)
+        if tr.shape != xt.shape or not np.array_equal(tr, xt):
+            bad = 'update receives the frame of each trace passed through the preprocess chain in order'
+            break
+        if d.shape != xd.shape or not np.array_equal(d, xd):
+            bad = 'each trace is paired with its own metadata: data equals model(selection_function(metadata of the same traces))'
+            break
+        alltr.append(xt)
+        alld.append(xd)
+    if not bad and [seen[r] for r in sorted(seen)] != list(beh['ns']):
+        bad = 'the whole trace set is consumed (tail batch included)'
+        ctx = dict(ctx, consumed=[seen[r] for r in sorted(seen)], sizes=beh['ns'])
+    if not bad and [[int(np.searchsorted(starts, i[0], side='right')), int(i[0] - starts[np.searchsorted(starts, i[0], side='right') - 1]) + 1,
+                    int(i[-1] - starts[np.searchsorted(starts, i[0], side='right') - 1]) + 1] for i, _, _ in rec.batches] != [list(f) for f in fed]:
+        chk.drift += 1
+    if not bad and rec.computes and rec.computes[-1] != beh['computes'][-1]:
+        bad = 'results are computed from everything processed at the end of every run'
     if not bad and rec.computes != beh['computes']:
-        bad = 'results are (re)computed exactly where the specification computes them'
-        ctx = dict(ctx, got_computes=rec.computes, want_computes=beh['computes'])
+        chk.drift += 1          # where intermediate results are computed is mechanism (K); P is checked on the final results below
     if not bad:
         one = mk()
         one.update(np.concatenate(alltr), np.concatenate(alld))
